@@ -72,6 +72,8 @@ def run(repo, rep, tier):
     r5 = rep.rule('C06.R5', 'CIMDateTime copy construction transfers every '
                   'slot')
     r6 = rep.rule('C06.R6', 'real formatting constants and branch order')
+    r7 = rep.rule('C06.R7', 'datetime printer fields = datetime parser '
+                  'fields (25 characters)')
 
     # ---------------- R1 ---------------------------------------------------
     cimint = repo.cls(TYP, 'CIMInt')
@@ -367,6 +369,80 @@ def run(repo, rep, tier):
                         '%s: the copy prints/behaves differently from the '
                         'original' % sl)
 
+    # ---------------- R7 ---------------------------------------------------
+    strf = dt.methods.get('__str__')
+    if strf is None:
+        raise AnalysisError('CIMDateTime.__str__ vanished')
+    r7.functions.add(strf.fq)
+    top_if = [x for x in strf.body if isinstance(x, ast.If)]
+    if not top_if:
+        raise AnalysisError('CIMDateTime.__str__: interval/timestamp branches '
+                            'not found')
+    branches = {'interval': top_if[0].body, 'timestamp': top_if[0].orelse}
+    pats = {'interval': '_interval_pattern', 'timestamp':
+            '_timestamp_pattern'}
+    env = module_env(repo, typ, dt)
+    for kind, stmts in branches.items():
+        r7.sites += 1
+        tab, layout = _printer_fields(strf, stmts)
+        node = dt.consts.get(pats[kind])
+        try:
+            pat = fold_const(node, env)
+        except NotConst:
+            pat = None
+        widths = _regex_field_widths(pat) if pat else None
+        ok = bool(tab) and layout is not None and widths is not None
+        total = None
+        seq = []
+        if ok:
+            pos = 0
+            for v in layout.values:
+                if isinstance(v, ast.Constant):
+                    for ch in str(v.value):
+                        seq.append(('lit', 1, pos))
+                        pos += 1
+                elif isinstance(v, ast.FormattedValue):
+                    nm = norm(v.value)
+                    if nm in tab:
+                        b, ln = tab[nm]
+                        seq.append(('field', ln, pos, b))
+                        pos += ln
+                    elif v.format_spec is not None:
+                        spec = ''.join(str(x.value)
+                                       for x in v.format_spec.values
+                                       if isinstance(x, ast.Constant))
+                        m = re.match(r'^0?(\d+)d$', spec)
+                        ln = int(m.group(1)) if m else None
+                        seq.append(('field', ln, pos, pos))
+                        pos += ln or 0
+                    else:
+                        seq.append(('field', 1, pos, pos))   # sign
+                        pos += 1
+            total = pos
+            # every _to_str field begins where it is placed
+            ok = total == 25 and all(
+                x[0] != 'field' or x[3] == x[2] for x in seq)
+            # and every printed field is exactly one parser group (same
+            # start, same width); literals fall on parser literals or on
+            # groups that match only that literal text (':', '000')
+            pstart = {}
+            q = 0
+            for k_, w in widths:
+                pstart[q] = (k_, w)
+                q += w
+            ok = ok and q == 25 and all(
+                x[0] != 'field' or pstart.get(x[2], (None, None))[1] == x[1]
+                for x in seq)
+        r7.ob(ok, 'CIMDateTime.__str__:' + kind,
+              {'kind': kind, 'printer_layout': seq, 'total_width': total,
+               'parser_pattern': pat, 'parser_field_widths': widths})
+        if not ok:
+            rep.finding(r7, strf.qualname, kind + ' layout', 'layout', TYP,
+                        strf.node.lineno,
+                        'the %s string is not the 25-character layout its '
+                        'own parser pattern expects (printer fields %s, '
+                        'total %s; parser widths %s)'
+                        % (kind, [(x[1], x[2]) for x in seq], total, widths))
     # ---------------- R6 ---------------------------------------------------
     atom = repo.func(TYP, 'atomic_to_cim_xml')
     r6.functions.add(atom.fq)
@@ -478,6 +554,56 @@ def _typed_name(repo, module, func, name):
             return True
     r = repo.resolve_import(module, name.split('.')[0])
     return r is not None and r[1] in r[0].classes
+
+
+def _regex_field_widths(pattern):
+    """[(kind, width)] for the top-level items of a datetime pattern:
+    capturing groups of fixed width and literals."""
+    from .. import rx
+    p = rx.parse(pattern)
+    out = []
+    for op, av in p:
+        sop = str(op)
+        if sop == 'AT':
+            continue
+        if sop == 'SUBPATTERN':
+            sub = av[3]
+            w = 0
+            for op2, av2 in sub:
+                s2 = str(op2)
+                if s2 == 'MAX_REPEAT' and av2[0] == av2[1]:
+                    w += av2[0]
+                elif s2 in ('LITERAL', 'IN'):
+                    w += 1
+                else:
+                    return None
+            out.append(('group', w))
+        elif sop == 'LITERAL':
+            out.append(('lit', 1))
+        else:
+            return None
+    return out
+
+
+def _printer_fields(func, branch_stmts):
+    """(table of _to_str(begin, len) per variable, f-string layout) of one
+    branch of CIMDateTime.__str__"""
+    tab = {}
+    layout = None
+    for s in branch_stmts:
+        for n in ast.walk(s):
+            if isinstance(n, ast.Assign) and isinstance(n.value, ast.Call) \
+                    and dotted(n.value.func) == 'self._to_str' and \
+                    len(n.value.args) == 3:
+                try:
+                    tab[n.targets[0].id] = (fold_const(n.value.args[1]),
+                                            fold_const(n.value.args[2]))
+                except NotConst:
+                    return None, None
+            if isinstance(n, ast.Assign) and isinstance(n.value,
+                                                        ast.JoinedStr):
+                layout = n.value
+    return tab, layout
 
 
 class _Body(ast.AST):
